@@ -70,6 +70,12 @@ var c12Reqs = []c12Req{
 	{"h-noargs-after", `{ x4 x5 a { name } }`, nil, nil, "valid", nil},
 	{"s-enum-all", `{ __type(name:"Kind") { enumValues(includeDeprecated:true) { name isDeprecated } } }`, nil, nil, "introspection", nil},
 	{"s-enum-twice", `{ a: __type(name:"Kind") { enumValues { name } } b: __type(name:"Kind") { enumValues(includeDeprecated:true) { name } } c: __type(name:"Kind") { enumValues { name } } }`, nil, nil, "introspection", nil},
+	{"e-sentinel-1", `{ x1 x2 a { name } }`, nil, map[string]string{"R@x1": FSentinelErr, "R@a.name": FSentinelErr}, "failing", nil},
+	{"e-sentinel-2", `{ leafy { s } x3 }`, nil, map[string]string{"R@leafy.s": FSentinelErr, "R@x3": FSentinelErr}, "failing", nil},
+	{"v-typed-merge-a", `query($as:String){ node(as:$as) { peer(as:"B") { id } ... on A { peer(as:"B") { ... on B { bOnly } } } ... on C { peer(as:"B") { name } } } }`, map[string]interface{}{"as": "A"}, nil, "valid", nil},
+	{"v-typed-merge-c", `query($as:String){ node(as:$as) { peer(as:"B") { id } ... on A { peer(as:"B") { ... on B { bOnly } } } ... on C { peer(as:"B") { name } } } }`, map[string]interface{}{"as": "C"}, nil, "valid", nil},
+	{"v-typed-merge-b", `query($as:String){ node(as:$as) { peer(as:"B") { id } ... on A { peer(as:"B") { ... on B { bOnly } } } ... on C { peer(as:"B") { name } } } }`, map[string]interface{}{"as": "B"}, nil, "valid", nil},
+	{"s-defaults", `{ __type(name:"Query") { fields { name args { name defaultValue } } } f: __type(name:"Filter") { inputFields { name defaultValue } } }`, nil, nil, "introspection", nil},
 	{"s-types", `{ __schema { types { name kind } } }`, nil, nil, "introspection", nil},
 	{"s-iface", `{ __type(name:"Node") { fields { name args { name type { name } } } possibleTypes { name } } }`, nil, nil, "introspection", nil},
 	{"s-enum", `{ __type(name:"Kind") { enumValues { name } } }`, nil, nil, "introspection", nil},
